@@ -60,6 +60,11 @@ func convRun(w *World, coll bool) {
 	g := &opGen{tape: t, coll: coll, ids: []string{"a", "b"}, include: true}
 	cw := &convWorld{w: w, coll: coll}
 	g.initial(&cw.cfg)
+	if t.Flag(1, 4) {
+		// an equivalence under which many consecutive writes are equivalent (they differ only in V, which still tells
+		// the writes apart for the oracle): the subscriber's view must then agree with the store up to that equivalence
+		cw.cfg.EquivNoV, g.pool = true, true
+	}
 	clock := &simClock{}
 	cw.r = newRealRes(cw.cfg, clock, &simRNG{})
 	w.RecordGates = true
@@ -220,7 +225,9 @@ func (cw *convWorld) check(t *Task) {
 			answerable[e.ID] = true
 		}
 		for _, h := range all {
-			if h.Res.Code == codes.OK && h.Inv > s.pullReturn && (h.Op.Kind != opDelete || h.Res.HasMsg) {
+			// (under an equivalence an updates-only subscriber that never received anything for an id may simply have
+			// been spared changes equivalent to what was there before: only what it was told about counts)
+			if h.Res.Code == codes.OK && h.Inv > s.pullReturn && (h.Op.Kind != opDelete || h.Res.HasMsg) && !(cw.cfg.EquivNoV && s.cfg.UpdatesOnly) {
 				answerable[h.Op.ID] = true
 			}
 		}
@@ -238,19 +245,25 @@ func (cw *convWorld) check(t *Task) {
 				s.name, s.cfg, id, got, want, commits[id], pubs[id], eventsString(s.events)), key)
 		}
 		proj := func(m mm) mm { return m.project(s.cfg.RMask, !s.cfg.RMaskSet) }
+		same := func(a, b mm) bool {
+			if cw.cfg.EquivNoV {
+				a.V, b.V = 0, 0
+			}
+			return a == b
+		}
 		switch {
 		case !cw.coll:
 			if !answerable[""] {
 				continue
 			}
 			if len(s.events) == 0 {
-				if present {
+				if present && !(cw.cfg.EquivNoV && s.cfg.UpdatesOnly) {
 					stale("", "<no event>", proj(val).String())
 				}
 				continue
 			}
 			last := s.events[len(s.events)-1]
-			if !present || last.New != proj(val) {
+			if !present || !same(last.New, proj(val)) {
 				stale("", last.New.String(), fmt.Sprint(proj(val), present))
 			}
 		case s.cfg.UsePullID:
@@ -275,7 +288,7 @@ func (cw *convWorld) check(t *Task) {
 					map[string]any{"resource": "collection", "mode": mode, "cause": cw.staleCause(s, id, all)})
 				continue
 			}
-			if last.New != proj(cur) {
+			if !same(last.New, proj(cur)) {
 				stale(id, last.New.String(), proj(cur).String())
 			}
 		default:
@@ -289,7 +302,7 @@ func (cw *convWorld) check(t *Task) {
 				if wok && s.cfg.Include != nil && !s.cfg.Include.eval(id, false, want.V) {
 					wok = false // the subscription behaves as if the collection only held the items satisfying the predicate
 				}
-				if gok != wok || (gok && got != proj(want)) {
+				if gok != wok || (gok && !same(got, proj(want))) {
 					gs, ws := "<absent>", "<absent>"
 					if gok {
 						gs = got.String()
